@@ -1,4 +1,4 @@
-SOURCE_COMMITS = []
+SOURCE_COMMITS = []  # no hook commits; fix: commits are listed in known_findings.jsonl
 NOTES = ('All checks are property-based: generated cases (Hypothesis / exhaustive enumeration) against explicit oracles; '
          'see DESIGN.md. falcon is imported from the .py sources of /repo (stale compiled modules bypassed).')
 _ALL = ['C%02d' % i for i in range(1, 21)]
@@ -7,6 +7,10 @@ CHECKS = [
   'technique': 'exhaustive short strings + Hypothesis strings vs byte-loop reference decoder/encoder, urllib differential, inverse and idempotence laws',
   'text': 'Every string of length <=4 (<=5 thorough) over a 17-symbol adversarial alphabet plus tens of thousands of long random strings are decoded/encoded by the real functions and compared with an independent reference and with urllib; encode/decode inverse, output alphabet, check-escaped passthrough/idempotence; parse_host over generated RFC 3986 authorities. Bounded-exhaustive + random exploration, not a proof.',
   'note': 'trusts CPython, Hypothesis, urllib.parse and the 15-line reference in vf/checks/c10_uri.py; Cython twin (cyutil/uri.pyx) cannot be rebuilt offline and is not covered; lone surrogates excluded'},
+ {'id': 'C14',
+  'technique': 'model-based operation histories (exhaustive short + Hypothesis long, nested sub-readers) vs byte-cursor reference model; step-budget livelock detection',
+  'text': 'All histories of <=2 (quick) / <=3 (thorough) operations from a 15-operation alphabet over all data strings of length <=4/5 over {a,b,-}, chunk sizes 1-3 and two chunkings are run on the real sync and async BufferedReader and compared step by step (return value, DelimiterError, tell/eof, bytes requested from the source) with a 40-line cursor model; plus tens of thousands of random histories of <=10 operations with nested delimit() to depth 2, long data crossing the max-join threshold, declared max length below/equal/above the data. Bounded-exhaustive + random exploration.',
+  'note': 'trusts the cursor model in vf/checks/c14_readers.py, CPython, Hypothesis; Cython reader not covered; parent operations while a child is half-read are outside the domain; async eof may lag (one-sided)'},
 ]
 _claimed = {c['id'] for c in CHECKS}
 NOT_APPLICABLE = [{'property_id': p, 'reason': 'check not built yet (work in progress; the technique applies, see DESIGN.md)'} for p in _ALL if p not in _claimed]
